@@ -13,7 +13,9 @@
  *        obs ::= - | i<int> | d<%.17g> | h<hex of the returned string>
  *        files ::= - | <tid>=<hex of stream.json>,...   the stream.json files whose content changed during the call
  *   A missing record at the end = the call that did not return (abort).
- *   Xe = emit OHx(-1,-1,0) and OHe, ovni_flush(), then ovni_thread_free() (so that the trace can be fed to ovniemu). */
+ *   Xe = emit OHx(-1,-1,0) and OHe, ovni_flush(), then ovni_thread_free() (so that the trace can be fed to ovniemu).
+ *   C17 (mark metadata): m<type>,<flags>,<title hex|N> = ovni_mark_type, l<type>,<value>,<label hex|N> = ovni_mark_label
+ *   (N = NULL pointer). */
 #define _GNU_SOURCE
 #include <errno.h>
 #include <pthread.h>
@@ -191,6 +193,22 @@ run_op(char *op)
 			free(r);
 		}
 		free(k);
+		break;
+	}
+	case 'm': {
+		split(rest, a, 3);
+		char *t = strcmp(a[2], "N") == 0 ? NULL : unhexs(a[2], strlen(a[2]));
+		ovni_mark_type((int32_t) strtoll(a[0], NULL, 10), (long) strtoll(a[1], NULL, 10), t);
+		fputc('-', lg);
+		free(t);
+		break;
+	}
+	case 'l': {
+		split(rest, a, 3);
+		char *t = strcmp(a[2], "N") == 0 ? NULL : unhexs(a[2], strlen(a[2]));
+		ovni_mark_label((int32_t) strtoll(a[0], NULL, 10), (int64_t) strtoll(a[1], NULL, 10), t);
+		fputc('-', lg);
+		free(t);
 		break;
 	}
 	case 'f': ovni_attr_flush(); fputc('-', lg); break;
